@@ -18,20 +18,16 @@ import logging
 logger = logging.getLogger("ncclient.capabilities")
 
 
+_IETF_NETCONF_PREFIXES = ("urn:ietf:params:xml:ns:netconf:", "urn:ietf:params:netconf:")
+
 def _abbreviate(uri):
-    if uri.startswith("urn:ietf:params") and ":netconf:" in uri:
-        splitted = uri.split(":")
-        if ":capability:" in uri:
-            if uri.startswith("urn:ietf:params:xml:ns:netconf"):
-                name, version = splitted[7], splitted[8]
-            else:
-                name, version = splitted[5], splitted[6]
-            return [ ":" + name, ":" + name + ":" + version ]
-        elif ":base:" in uri:
-            if uri.startswith("urn:ietf:params:xml:ns:netconf"):
-                return [ ":base", ":base" + ":" + splitted[7] ]
-            else:
-                return [ ":base", ":base" + ":" + splitted[5] ]
+    for prefix in _IETF_NETCONF_PREFIXES:
+        if uri.startswith(prefix):
+            splitted = uri[len(prefix):].split(":")
+            if splitted[0] == "capability" and len(splitted) >= 3:
+                return [ ":" + splitted[1], ":" + splitted[1] + ":" + splitted[2] ]
+            if splitted[0] == "base" and len(splitted) >= 2:
+                return [ ":base", ":base" + ":" + splitted[1] ]
     return []
 
 def schemes(url_uri):
